@@ -85,7 +85,7 @@ Example C07_ex_fk : cs_fk (m_db ex_m).
 Proof. intros r [H|[H|[H|[]]]]; subst r; reflexivity. Qed.
 
 Example C07_ex_pre :
-  cs_pre (OpConnCreate [(4, [1]); (5, [2])] [(1, 3, 4); (2, 2, 5); (2, 3, 2)]) ex_m /\
+  cs_pre (OpConnCreate [[(4, [1])]; [(5, [2])]] [(1, 3, 4); (2, 2, 5); (2, 3, 2)]) ex_m /\
   cs_pre (OpMove 1 2 [(2, 2)]) ex_m /\ cs_pre (OpSessionEnd [3]) ex_m /\ cs_pre OpStartup ex_m /\
   cs_pre (OpConnUpdate 2 6 [3] [1] [(1, 3)]) ex_m /\ cs_pre (OpAppend 1 3 7 [4]) ex_m.
 Proof.
@@ -100,7 +100,7 @@ Qed.
 (* crash in the middle of the connector batch: after recovery the two new files are gone and the view is the old one;
    after the commit it is the new one; the orphan file 9 and the marked message 3 are removed by the clean-up *)
 Example C07_ex_crash :
-  let op := OpConnCreate [(4, [1]); (5, [2])] [(1, 3, 4); (2, 2, 5); (2, 3, 2)] in
+  let op := OpConnCreate [[(4, [1])]; [(5, [2])]] [(1, 3, 4); (2, 2, 5); (2, 3, 2)] in
   let v := cs_view (fun _ => None) (fun _ => false) in
   v (cs_recover (cs_crash_after 5 (cs_steps op ex_m) ex_m)) = v ex_m /\
   v (cs_recover (cs_crash_after 10 (cs_steps op ex_m) ex_m)) = v (cs_exec_op op ex_m) /\
